@@ -246,7 +246,7 @@ def run(ck: Check):
                "histories of length 3..5 (quick) / 3..7 (thorough), each executed in a fresh interpreter; outcome of every step (handle / "
                "which model's outputs / error / death of the process) compared with Model/Proc.run evaluated in the kernel; thread runs "
                "with 2..16 threads on the same and on different handles. Non-trivial: history re-saves a path or has >= 2 handles. "
-               "Distinct = canonical JSON of the history.")
+               "Distinct = canonical JSON of the history. Also: ten (thirty) re-saves of one path / two paths in turn with aperiodic model sequences; the storage class of every parsed declaration; Model/Threads.run_schedule in the kernel on parsed dense and conv programs (three threads, calls into two libraries, stale garbage, random / sequential / round-robin schedules) against the real library called alone.")
     ck.translate("LibIO", t_libio.gen_libio)
     ck.translate("WrapperParams", t_wr.gen_wrapper_params)
     ck.translate("GateCode", t_gc.gen_gatecode)
